@@ -46,6 +46,8 @@ pub struct Profile {
     pub p_branch_to_function: f64,
     /// `la t, fn; jalr ra, t, 0` (surface / parser workloads only)
     pub p_indirect_call: f64,
+    /// arithmetic whose destination is x0
+    pub p_write_zero: f64,
 }
 
 impl Profile {
@@ -76,6 +78,7 @@ impl Profile {
             p_jal_other_rd: 0.0,
             p_branch_to_function: 0.0,
             p_indirect_call: 0.0,
+            p_write_zero: 0.0,
         }
     }
     /// Wild programs with indirect calls (`jalr`), for parser / surface workloads (not executed).
@@ -113,6 +116,7 @@ impl Profile {
             p_jal_other_rd: 0.15,
             p_branch_to_function: 0.0,
             p_indirect_call: 0.0,
+            p_write_zero: 0.04,
         }
     }
 }
@@ -501,6 +505,12 @@ impl<'a> G<'a> {
             3..=5 => {
                 let a = self.src(f);
                 let b = self.src(f);
+                if self.rng.chance(self.prof.p_write_zero) {
+                    // result thrown away into x0
+                    let op = *self.rng.pick(ops);
+                    self.emit(Ins::Alu { op, rd: ZERO, rs1: a, rs2: b });
+                    return;
+                }
                 if let Some(rd) = self.dst(f, &[a, b]) {
                     let op = *self.rng.pick(ops);
                     self.emit(Ins::Alu { op, rd, rs1: a, rs2: b });
